@@ -161,6 +161,18 @@ def shard(args):
                     i += 1
                     if i % nshards == idx:
                         check_value(acc, spec, how)
+    # longer strings (8, 16, 17, 33 characters) built from repeating patterns, cut into 1, 2, 5 and 8 runs
+    for pat in ("a", "Ｅ", "a漢", "Ｅ\u0300a", "a\u0300\u0300Ｅ", "ＥＥa"):
+        for total in (8, 16, 17, 33):
+            text = (pat * total)[:total]
+            for nruns in (1, 2, 5, 8):
+                i += 1
+                if i % nshards != idx:
+                    continue
+                step = max(1, total // nruns)
+                parts = [text[j : j + step] for j in range(0, total, step)]
+                spec = tuple((p_, C.P3[k % 3]) for k, p_ in enumerate(parts))
+                check_value(acc, spec)
     return acc.export()
 
 
